@@ -56,7 +56,7 @@ PROPS = {
                 "wire, the object's field and an independent count must agree; re-encode after a size-preserving change.",
     },
     "C05": {
-        "theorems": ["FinProto.Obl.C05_frames_recognised", "FinProto.Obl.C05_repo", "FinProto.frame_cks_exact", "FinProto.frame_shape", "FinProto.Obl.gen_types_eq_pinned"],
+        "theorems": ["FinProto.Obl.C05_frames_recognised", "FinProto.Obl.C05_repo", "FinProto.Obl.C05_sse_alg", "FinProto.Obl.C05_szse_alg", "FinProto.Obl.C05_crc32_alg", "FinProto.frame_cks_exact", "FinProto.frame_shape", "FinProto.Obl.gen_types_eq_pinned"],
         "aspects": {**ENC_ALL},
         "rule": "as C04 for the 3 checksummed frames; the trailer and the object's field must equal an independent byte sum / bitwise CRC-32 of "
                 "exactly this frame's bytes (corrected length included, earlier buffer content excluded), incl. frames > 1 KiB of heavy bytes.",
